@@ -10,7 +10,7 @@
 (* line for the driver.                                                    *)
 (* Tier "random" draws the parameters with RandomElement (tlc -simulate).  *)
 (***************************************************************************)
-EXTENDS C19_Arith, C19_PolyRing, Json
+EXTENDS C19_Entry, Json
 CONSTANT Tier
 VARIABLE st
 
@@ -48,7 +48,17 @@ PowNext(s) ==
 (**************************** (b) Euclid ***********************************)
 EuclidRange == IF Quick THEN -12..12 ELSE -40..40
 EuclidSeeds == { [part |-> "euclid", ph |-> "seed", q |-> q] : q \in EuclidRange }
-EuclidNext(s) == \E r \in EuclidRange : st' = [part |-> "euclid", ph |-> "case", q |-> s.q, r |-> r, ac |-> ""]
+\* every pair goes through every entry point of the routine (C19_Arith (b'), C19_Entry)
+EuclidNext(s) == \E r \in EuclidRange : st' = [part |-> "euclid", ph |-> "case", q |-> s.q, r |-> r, eps |-> EntrySeq, ac |-> ""]
+\* one operand beyond 32 bit / beyond the 53 bits of a float: 2^k + a against a small integer, in
+\* both orders; the small exponents are there for the model check (BigJudgeSound)
+BigPrimes == << 10007, 10009, 30011 >>
+BigExps == {4, 10, 20} \cup (IF Quick THEN {31, 52, 53, 54, 64, 100, 1100} ELSE (30..70) \cup {100, 127, 128, 1000, 1100})
+BigSmall == IF Quick THEN {-7, -3, 2, 5, 6, 10} ELSE {-7, -6, -3, -2, -1, 1, 2, 3, 5, 6, 10, 12, 210}
+EuclidBigSeeds == { [part |-> "euclidbig", ph |-> "seed", k |-> k] : k \in BigExps }
+EuclidBigNext(s) == \E a \in -2..3, sm \in BigSmall, sw \in {0, 1} :
+                      st' = [part |-> "euclidbig", ph |-> "case", k |-> s.k, a |-> a, sm |-> sm, sw |-> sw,
+                             ps |-> BigPrimes, eps |-> EntrySeq, ac |-> ""]
 ManyPool == IF Quick THEN {-6, -4, 0, 4, 6, 9} ELSE {-12, -6, -4, -1, 0, 1, 4, 6, 9, 10}
 ManySeeds == { [part |-> "gcdmany", ph |-> "seed", xs |-> << a >>] : a \in ManyPool }
 ManyNext(s) ==
@@ -209,7 +219,7 @@ EuclidPolyPool ==
                        << Ent(1, I(-1)), Ent(3, I(1)) >>, << Ent(0, I(2)) >> } ELSE {})
 PEuclidSeeds == { [part |-> "peuclid", ph |-> "seed", P |-> pp] : pp \in EuclidPolyPool }
 PEuclidNext(s) == \E qq \in EuclidPolyPool :
-                    st' = [part |-> "peuclid", ph |-> "case", P |-> s.P, Q |-> qq, ac |-> ""]
+                    st' = [part |-> "peuclid", ph |-> "case", P |-> s.P, Q |-> qq, eps |-> EntrySeq, ac |-> ""]
 
 (**************************** (e) quotient *********************************)
 QuotRange == IF Quick THEN -12..12 ELSE -60..60
@@ -251,7 +261,7 @@ RandNext(s) ==
                       one |-> RandomElement({"id", "default"}),
                       n |-> (IF mon = "word" THEN R(-1, 60) ELSE R(-2, 1000)), ac |-> ""]
       [] s.part = "euclid" ->
-            st' = [part |-> "euclid", ph |-> "case", q |-> R(-3000, 3000), r |-> R(-3000, 3000), ac |-> ""]
+            st' = [part |-> "euclid", ph |-> "case", q |-> R(-3000, 3000), r |-> R(-3000, 3000), eps |-> EntrySeq, ac |-> ""]
       [] s.part = "gcdmany" ->
             \E g \in { R(1, 30) } :
             st' = [part |-> "gcdmany", ph |-> "case",
@@ -288,12 +298,13 @@ RandNext(s) ==
 
 (**************************** the state machine ****************************)
 Init == IF Tier = "random" THEN st \in RandSeeds
-        ELSE st \in PowSeeds \cup EuclidSeeds \cup ManySeeds \cup FFTSeeds \cup SymGSeeds
+        ELSE st \in PowSeeds \cup EuclidSeeds \cup EuclidBigSeeds \cup ManySeeds \cup FFTSeeds \cup SymGSeeds
                     \cup PolySeeds \cup PEuclidSeeds \cup QuotSeeds \cup QuotBigSeeds
 Next == /\ st.ph = "seed"
         /\ IF Tier = "random" THEN RandNext(st)
            ELSE CASE st.part = "pow" -> PowNext(st)
                   [] st.part = "euclid" -> EuclidNext(st)
+                  [] st.part = "euclidbig" -> EuclidBigNext(st)
                   [] st.part = "gcdmany" -> ManyNext(st)
                   [] st.part = "fft" -> FFTNext(st)
                   [] st.part = "symg" -> SymGNext(st)
@@ -322,9 +333,58 @@ PowRefines ==
 
 EuclidRefines ==
     (Complete /\ st.part = "euclid") =>
-        LET e == ExtEuclid(st.q, st.r) l == LcmImpl(st.q, st.r) IN
-        /\ Bezout(e[1], e[2], e[3], st.q, st.r) /\ IsGcd(e[1], st.q, st.r)
-        /\ IF l[1] = 0 THEN st.q = 0 /\ st.r = 0 ELSE IsLcm(l[2], st.q, st.r)
+        \A i \in 1..Len(st.eps) :
+            LET ep == st.eps[i] e == EntryEE(ep, st.q, st.r) l == EntryLcm(ep, st.q, st.r) IN
+            /\ ep \in Entries
+            /\ Bezout(e[1], e[2], e[3], st.q, st.r) /\ IsGcd(e[1], st.q, st.r)
+            /\ IsGcd(EntryGcd(ep, st.q, st.r), st.q, st.r)
+            /\ IF l[1] = 0 THEN st.q = 0 /\ st.r = 0 ELSE IsLcm(l[2], st.q, st.r)
+\* the judge accepts what the transcribed entry points return (no false alarm) ...
+SmallPair(c) == Abs(c.q) <= 100 /\ Abs(c.r) <= 100
+EntryJudgeAccepts ==
+    (Complete /\ st.part = "euclid" /\ SmallPair(st)) => Fails(EuclidClauses(st, PredictedObs(st, ""))) = << >>
+\* ... and is sharp: an entry that hands the operands on in the other order, or the coefficients
+\* back in the other order, is rejected with the Bezout clause *of that entry* on every pair on
+\* which the order matters; an lcm that divides by the gcd twice is rejected on every pair with
+\* a proper common divisor
+OrderMatters(c) == LET e == ExtEuclid(c.q, c.r) IN e[2] * c.q + e[3] * c.r # e[3] * c.q + e[2] * c.r
+RejectedAt(cls, cl, ep) == \E j \in 1..Len(cls) : cls[j] = FE(cl, "", ep)
+EntryJudgeSharp ==
+    (Complete /\ st.part = "euclid" /\ SmallPair(st)) =>
+        /\ \A fw \in {"forward_swapped", "coeffs_exchanged"} :
+              LET cls == EuclidClauses(st, PredictedObs(st, fw))
+                  sw == ExtEuclid(st.r, st.q) IN
+              \A i \in 2..Len(st.eps) :
+                  (IF fw = "forward_swapped" THEN ~Bezout(sw[1], sw[2], sw[3], st.q, st.r) ELSE OrderMatters(st))
+                      <=> RejectedAt(cls, "ee-bezout", "ee@" \o st.eps[i])
+        /\ LET cls == EuclidClauses(st, PredictedObs(st, "lcm_divides_twice")) IN
+           (st.q # 0 /\ st.r # 0 /\ Gcd(st.q, st.r) > 1) => \E j \in 1..Len(cls) : cls[j].cl = "lcm-wrong"
+
+\* big pairs: on the exponents TLC can hold, the residue judge accepts the transcribed routine
+\* through every entry and rejects the exchanged order exactly when the order matters modulo
+\* some prime
+BigExact(c) == IPowG(2, c.k) + c.a
+BigOps(c) == IF c.sw = 0 THEN << BigExact(c), c.sm >> ELSE << c.sm, BigExact(c) >>
+BigPredicted(c, fw) ==
+    [es |-> [i \in 1..Len(c.eps) |->
+        LET ops == BigOps(c)
+            t == EntryEEB(c.eps[i], ops[1], ops[2], fw)
+            l == EntryLcmB(c.eps[i], ops[1], ops[2], fw) IN
+        [ep |-> c.eps[i],
+         ee |-> [r |-> "ok", e |-> "", g |-> IntVal(t[1]),
+                 res |-> [j \in 1..Len(c.ps) |-> << t[1] % c.ps[j], t[2] % c.ps[j], t[3] % c.ps[j] >>]],
+         g |-> OkVals(<< t[1] >>),
+         l |-> [r |-> "ok", e |-> "", res |-> [j \in 1..Len(c.ps) |-> << l[2] % c.ps[j], 1 >>]]]]]
+BigJudgeSound ==
+    (Complete /\ st.part = "euclidbig" /\ st.k <= 20) =>
+        LET ops == BigOps(st) t == ExtEuclid(ops[1], ops[2]) IN
+        /\ BigOK(st) /\ BigGcd(st) = Gcd(ops[1], ops[2])
+        /\ Fails(EuclidBigClauses(st, BigPredicted(st, ""))) = << >>
+        /\ LET cls == EuclidBigClauses(st, BigPredicted(st, "coeffs_exchanged")) IN
+           \A i \in 2..Len(st.eps) :
+               (\E j \in 1..Len(st.ps) :
+                    LET p == st.ps[j] IN (MulMod(t[3], ops[1], p) + MulMod(t[2], ops[2], p)) % p # (t[1] % p))
+                   <=> RejectedAt(cls, "ee-bezout", "ee@" \o st.eps[i])
 ManyRefines ==
     (Complete /\ st.part = "gcdmany") =>
         LET RECURSIVE Red(_) Red(i) == IF i = 1 THEN st.xs[1] ELSE GcdImpl(Red(i - 1), st.xs[i])
